@@ -16,19 +16,19 @@ import (
 func init() {
 	core.Register(&core.Check{
 		ID: "C32", Level: "exploration",
-		Rule: "random bulks of 1-40 self-identifying elements (creates by postings / script tagged with their index, metadata writes, reverts, metadata deletes; failing elements — insufficient funds, unknown transaction, missing metadata key — injected at random positions; dependent pairs where element k+1 spends what element k received; ADD_METADATA of a key followed by DELETE_METADATA of the same key on the same account / transaction in the same bulk, one bulk in three of the atomic ones built around such pairs followed by a failing element) posted to POST /v2/{ledger}/_bulk as application/json and as the json-stream content type with options {none, atomic, continueOnFailure, parallel, parallel+continueOnFailure, atomic+parallel}; oracle: one result per element, result i describes element i, atomic = all or nothing, sequential stop-after-first-failure, continueOnFailure applies every non-failing element, successful create results equal the submitted element; the ledger snapshot must agree with the reported results (including: a bulk that committed something leaves the ledger in use, like the same write on its own); a sequential bulk is the only request in flight, so any lock its own statements have to wait for (memstore lock table: holder = a session of the same request that waits for nothing) is a self-deadlock: reported, never waited out. Parallel bulks also run under the race detector. Distinct = (options, handler, element-kind vector, failure positions); non-trivial = bulk has >=2 elements and >=1 failing element or dependent pair",
+		Rule:        "random bulks of 1-40 self-identifying elements (creates by postings / script tagged with their index, metadata writes, reverts, metadata deletes; failing elements — insufficient funds, unknown transaction, missing metadata key — injected at random positions; dependent pairs where element k+1 spends what element k received; ADD_METADATA of a key followed by DELETE_METADATA of the same key on the same account / transaction in the same bulk, one bulk in three of the atomic ones built around such pairs followed by a failing element) posted to POST /v2/{ledger}/_bulk as application/json and as the json-stream content type with options {none, atomic, continueOnFailure, parallel, parallel+continueOnFailure, atomic+parallel}; oracle: one result per element, result i describes element i, atomic = all or nothing, sequential stop-after-first-failure, continueOnFailure applies every non-failing element, successful create results equal the submitted element; the ledger snapshot must agree with the reported results (including: a bulk that committed something leaves the ledger in use, like the same write on its own); a sequential bulk is the only request in flight, so any lock its own statements have to wait for (memstore lock table: holder = a session of the same request that waits for nothing) is a self-deadlock: reported, never waited out. Parallel bulks also run under the race detector. Distinct = (options, handler, element-kind vector, failure positions); non-trivial = bulk has >=2 elements and >=1 failing element or dependent pair",
 		Assumptions: []string{seqAssume},
-		Run:  func(r *core.Run) { runC32(r, "C32") },
+		Run:         func(r *core.Run) { runC32(r, "C32") },
 	})
 }
 
 type c32El struct {
-	JSON     string
-	Kind     string
-	Fails    bool   // fails whatever the other elements do
-	Dep      bool   // succeeds only if the previous element was applied before it
-	Tag      string // unique destination account for creates
-	Logs     int    // logs it appends when applied
+	JSON  string
+	Kind  string
+	Fails bool   // fails whatever the other elements do
+	Dep   bool   // succeeds only if the previous element was applied before it
+	Tag   string // unique destination account for creates
+	Logs  int    // logs it appends when applied
 }
 
 func c32Gen(rng *rand.Rand, n int, allowDep bool) []c32El {
@@ -59,6 +59,10 @@ func c32Gen(rng *rand.Rand, n int, allowDep bool) []c32El {
 			els = append(els, c32El{Kind: "create-script", Tag: tag, Logs: 1,
 				JSON: fmt.Sprintf(`{"action":"CREATE_TRANSACTION","data":{"script":{"plain":"send [USD %d] (\n source = @world\n destination = @%s\n)\n","vars":{}},"metadata":{"el":"%d"}}}`, 10+i, tag, i)})
 		case x < 57:
+			if rng.Intn(2) == 0 {
+				els = append(els, c32FailingCreate(rng, i))
+				break
+			}
 			els = append(els, c32El{Kind: "create-fail", Tag: tag, Fails: true,
 				JSON: fmt.Sprintf(`{"action":"CREATE_TRANSACTION","data":{"postings":[{"source":"nofunds:%d","destination":"%s","asset":"USD","amount":5}],"metadata":{"el":"%d"}}}`, i, tag, i)})
 		case x < 67:
@@ -106,8 +110,23 @@ func c32FailingEl(rng *rand.Rand, i int) c32El {
 	case 1:
 		return c32El{Kind: "delete-missing-meta", Fails: true, JSON: fmt.Sprintf(`{"action":"DELETE_METADATA","data":{"targetType":"TRANSACTION","targetId":1,"key":"absent%d"}}`, i)}
 	}
+	return c32FailingCreate(rng, i)
+}
+
+func c32FailingCreate(rng *rand.Rand, i int) c32El {
+	// a create that fails whatever precedes it: insufficient funds (refused by the machine), or a
+	// request that is invalid in itself (refused by validation before anything is executed)
+	posting := fmt.Sprintf(`{"source":"nofunds:%d","destination":"el:%d","asset":"USD","amount":5}`, i, i)
+	switch rng.Intn(5) {
+	case 0:
+		posting = fmt.Sprintf(`{"source":"world","destination":"el:%d","asset":"USD","amount":-5}`, i)
+	case 1:
+		posting = fmt.Sprintf(`{"source":"world","destination":"el:%d","asset":"usd","amount":5}`, i)
+	case 2:
+		posting = fmt.Sprintf(`{"source":"world","destination":"el %d","asset":"USD","amount":5}`, i)
+	}
 	return c32El{Kind: "create-fail", Tag: fmt.Sprintf("el:%d", i), Fails: true,
-		JSON: fmt.Sprintf(`{"action":"CREATE_TRANSACTION","data":{"postings":[{"source":"nofunds:%d","destination":"el:%d","asset":"USD","amount":5}],"metadata":{"el":"%d"}}}`, i, i, i)}
+		JSON: fmt.Sprintf(`{"action":"CREATE_TRANSACTION","data":{"postings":[%s],"metadata":{"el":"%d"}}}`, posting, i)}
 }
 
 // c32GenTargeted: bulks built around "delete what an earlier element of the same bulk added"
@@ -397,7 +416,7 @@ func runC32(r *core.Run, prop string) {
 					var tx struct {
 						Postings []struct {
 							Source, Destination, Asset string
-							Amount                      json.Number
+							Amount                     json.Number
 						} `json:"postings"`
 						Metadata map[string]string `json:"metadata"`
 					}
